@@ -101,19 +101,24 @@ class RouteScenario(explore.Scenario):
                     evs.append(('part', c))
                     if len(w.queues[c]) > 1:
                         evs.append(('join', c))
-        for c in (1, 2):
+        contenders = self.params.get('contenders', (1, 2))
+        for c in (0, 1, 2):
             if not w.alive[c] or w.partial.get(c):
                 # (a client in the middle of writing a message cannot start
                 # another one)
                 continue
-            if w.owner != c:
+            if c not in contenders:
+                pass
+            elif w.owner != c:
                 evs.append(('own', c))
                 if w.owner is not None and c not in w.names.waiters[WELL] \
                         and self.params.get('waiters'):
                     evs.append(('wait', c))
-            if self.params.get('waiters') and (
+            if c in contenders and self.params.get('waiters') and (
                     w.owner == c or c in w.names.waiters[WELL]):
                 evs.append(('release', c))
+            if c == 0:
+                continue
             for ri in self.params.get('rules', (0, 1)):
                 evs.append(('rmmatch', c, ri) if ri in w.rules[c]
                            else ('addmatch', c, ri))
@@ -551,6 +556,12 @@ def run(ctx):
                         max_depth=4, max_dev=0,
                         label='bus-addressed traffic under catch-all rules, '
                               'depth 4')
+        explore.explore(ctx, RouteScenario,
+                        {'templates': [1], 'max_queue': 1, 'senders': [0],
+                         'waiters': True, 'contenders': (0, 1, 2),
+                         'rules': ()},
+                        max_depth=7, max_dev=0,
+                        label='three contenders for the name, depth 7')
         explore.explore(ctx, NameScenario, {}, max_depth=5,
                         label='unique names, depth 5')
     else:
@@ -578,6 +589,13 @@ def run(ctx):
                         max_depth=6, max_dev=1,
                         label='bus-addressed traffic under catch-all rules, '
                               'depth 6', max_states=200000)
+        explore.explore(ctx, RouteScenario,
+                        {'templates': [1, 3], 'max_queue': 1, 'senders': [0, 1],
+                         'waiters': True, 'contenders': (0, 1, 2),
+                         'rules': ()},
+                        max_depth=8, max_dev=0,
+                        label='three contenders for the name, depth 8',
+                        max_states=200000)
         explore.explore(ctx, NameScenario, {}, max_depth=7,
                         label='unique names, depth 7')
     ctx.bounds = {'clients': 3}
